@@ -3686,7 +3686,14 @@ first_iteration:
 		owned += dq->dq_width * DISPATCH_QUEUE_WIDTH_INTERVAL;
 	}
 	if (dc) {
-		owned = _dispatch_queue_adjust_owned(dq, owned, dc);
+		// If _dispatch_queue_try_upgrade_full_width() failed earlier while
+		// this thread held the drain lock, the reservation for the pending
+		// barrier is already part of dq_state (only the drain lock owner sets
+		// or consumes it) and must not be made a second time.
+		dq_state = os_atomic_load(&dq->dq_state, relaxed);
+		if (likely(!_dq_state_has_pending_barrier(dq_state))) {
+			owned = _dispatch_queue_adjust_owned(dq, owned, dc);
+		}
 	}
 	*owned_ptr &= DISPATCH_QUEUE_ENQUEUED | DISPATCH_QUEUE_ENQUEUED_ON_MGR;
 	*owned_ptr |= owned;
